@@ -345,6 +345,17 @@ def run(project: Project, rep, tier: str):
         else:
             rep.refuted("GE-FIT", fit, fit.node, f"fit(skew={skew}) does not assign both ranges "
                                                  f"({sorted({ev['attr'] for ev in stores})})")
+    # GE-DTYPE: the geometry is computed from numbers the caller wrote (ranges, pixel size): a helper array typed by them must not
+    # receive fractions (integer ranges with an integer pixel size are an ordinary configuration)
+    from . import dtype_rule as _dt
+    geo = [init, fit] + [s_ for s_ in setters.values()] + [m_ for n_, m_ in cls.methods.items() if n_ in ("_create_mesh",)]
+    from .oneshot import reachable_functions as _reach
+    geo_all = {f_.qualname: f_ for f_ in geo}
+    for f_ in _reach(project, [g_.qualname for g_ in geo if g_.qualname in project.functions]):
+        if f_.qualname.startswith("persim.images."):
+            geo_all.setdefault(f_.qualname, f_)
+    _dt.run_on(project, rep, "GE-DTYPE", list(geo_all.values()))
+    rep.floor("GE-DTYPE", 1)
     for rn, n in (("GE-SIB", 20), ("GE-MESH", 40), ("GE-COVER", 12), ("GE-FIT", 3)):
         rep.floor(rn, n)
     for t in ("numpy.ceil", "numpy.linspace", "builtins.int", "builtins.round"):
